@@ -102,3 +102,41 @@ func VerifH_C04_LazyAccumulationUnequalModuli() {
 	}
 	vCover("C04-lazy-accumulation-unequal-reached")
 }
+
+// Relinearisation: a degree-2 ciphertext becomes a degree-1 ciphertext with the same phase (c0 + c1 s + c2 s^2) up to
+// key-switch noise - in place, into a fresh receiver, and for an input whose domain flag differs from the one a
+// freshly allocated receiver carries (coefficient-domain input under NTT parameters and the other way round): the
+// receiver takes the domain and the metadata of the input.
+func VerifH_C04_Relinearize() {
+	vConfig("algebraic-samplers", "1")
+	for _, set := range []int{1, 4, 2} { // NTT parameters, coefficient-domain parameters, several auxiliary primes
+		c := VerifSetup_Ctx(set, vIsAlgebraic())
+		c.Kgen.GenSecretKey(c.Sk)
+		params := c.Params
+		rlk := c.Kgen.GenRelinearizationKeyNew(c.Sk)
+		eval := c.Eval.WithKey(NewMemEvaluationKeySet(rlk))
+		level := params.MaxLevelQ()
+		r := params.RingQ().AtLevel(level)
+		for _, flip := range []bool{false, true} {
+			tag := "set" + vItoa(set)
+			if flip {
+				tag += "-input-in-the-other-domain"
+			}
+			ct := vAtomCiphertext(c, 2, level, "c")
+			if flip {
+				ct.IsNTT = !ct.IsNTT
+			}
+			ct.Scale = NewScale(7)
+			want := vDecrypt(c, c.Dec, ct)
+			out := NewCiphertext(params, 1, level)
+			vAssert(eval.Relinearize(ct, out) == nil, tag+"-Relinearize-into-a-fresh-receiver-no-error")
+			vAssert(out.Degree() == 1 && out.Level() == level && vMetaEq(out.MetaData, ct.MetaData), tag+"-receiver-has-degree-one-and-the-metadata-of-the-input")
+			vAssertNoiseFree(r, vDecrypt(c, c.Dec, out).Value, want.Value, ct.IsNTT, 42, tag+"-relinearised-ciphertext-decrypts-alike")
+			inpl := ct.CopyNew()
+			vAssert(eval.Relinearize(inpl, inpl) == nil, tag+"-Relinearize-in-place-no-error")
+			vAssert(inpl.Degree() == 1, tag+"-in-place-degree-one")
+			vAssertNoiseFree(r, vDecrypt(c, c.Dec, inpl).Value, want.Value, ct.IsNTT, 42, tag+"-in-place-relinearised-ciphertext-decrypts-alike")
+		}
+	}
+	vCover("C04-relinearize-reached")
+}
